@@ -556,6 +556,21 @@ func runExportedEntry(e expEntry, c ExpCase, rec *h.Rec) error {
 		if err := accessors(blc, bb, rec); err != nil {
 			return err
 		}
+		// arithmetic on the primes the constructor generated: round trip in the circuit's own rings, and NTT products against
+		// the schoolbook product in a small ring over the same moduli (they are 1 mod 2^(LogN+1), hence NTT friendly for N=128)
+		if e := ringSmokeOpt(bparams.RingQ(), "BootQ", 19, rec, false); e != nil {
+			return e
+		}
+		if e := ringSmokeOpt(bparams.RingP(), "BootP", 20, rec, false); e != nil {
+			return e
+		}
+		small, err := ring.NewRing(128, bparams.QP())
+		if err != nil {
+			return h.Failf("C19:exported:bootstrapping-moduli-small-ring:"+short, "ring.NewRing(128, bootstrapping QP): %v", err)
+		}
+		if e := ringSmoke(small, "BootQP", 21, rec); e != nil {
+			return e
+		}
 		var bp2 bootstrapping.Parameters
 		bin, err := bp.MarshalBinary()
 		if err != nil {
